@@ -309,6 +309,9 @@ def oracle(p, r):
         lo_known = sum(1 for b in bounds if f in b[1])
         hi = sum(1 for b in bounds if f in b[2])
         c = got.get(f, 0)
+        # the property speaks of the set of files; multiplicities (an item listed twice) are left to the
+        # correspondence with the model
+        lo, lo_known, hi = min(lo, 1), min(lo_known, 1), (hi if hi == 0 else max(hi, c))
         if c > hi:
             lit_marker = posixpath.basename(f) == '_SUCCESS' and any(b[3] for b in bounds)
             sig = 'Local.resolve_filenames:marker-resolved' if lit_marker else 'Local.resolve_filenames:extra-file'
@@ -452,7 +455,7 @@ def ok_item(it):
     return '[' not in it and ',' not in it and it == it.strip() and '..' not in it.split('/')
 
 
-def tree_cases(rng, files, per_name_all, n_random, n_comma):
+def tree_cases(rng, files, per_name_all, n_random, n_comma, n_odd=6):
     cases = []
     names = names_of(files)
     pats = []
@@ -466,6 +469,17 @@ def tree_cases(rng, files, per_name_all, n_random, n_comma):
     for _ in range(n_random):
         pats.append(rand_pattern(rng, rng.choice(names)))
     pats += ['nonexistent', 'nonexistent/x*', '*', '*/*', '?', '', 'part*', '*/part*', '_SUCCESS', '*_SUCCESS']
+    # odd spellings (outside the property's quantifier, judged by the correspondence only): doubled separators,
+    # '.' components, trailing separators
+    for _ in range(n_odd):
+        q = rand_pattern(rng, rng.choice(names)) if rng.random() < 0.5 else rng.choice(names)
+        comps = q.split('/')
+        i = rng.randrange(len(comps) + 1)
+        comps.insert(i, rng.choice(['', '.', '.', '']))
+        q = '/'.join(comps)
+        if q.startswith('/'):
+            q = '.' + q
+        pats.append(q)
     pats = [q for q in pats if ok_item(q) and not q.startswith('/')]
     for q in pats:
         cases.append((RES, ROOT_SYM, list(files), styled(rng, q)))
@@ -542,6 +556,10 @@ def generate(rng, tier):
         cases.append((TOK, s))
     ws = [' a ', '\ta\n', 'a b', '  ', '', '\x0ba\x0c', '\x1ca\x1f', '\x85a\xa0', '\u2003a\u3000', '\u200ba', 'a\ufeff', '\x1ba',
           '\u1680a\u2028', '\u2029a\u202f', '\u205fa', ' \t a,b \r\n']
+    # every code point Python regards as blank, and its neighbours, on both sides of a word
+    blanks = [c for c in range(0x3100) if chr(c).isspace()]
+    for c in sorted({d for c in blanks for d in (c - 1, c, c + 1) if d >= 0}):
+        ws.append(chr(c) + 'a b' + chr(c))
     for s in ws:
         cases.append((STRIP, s))
     for s in ['', 'a.txt', 'file://a', 'file:///x/y', 's3://b/k', 's3n://b', 'gs://b', 'gcs://b', 'http://h/x', 'https://h',
